@@ -86,6 +86,24 @@ Theorem C07_no_send_under_unconfirmed : forall evs e x,
 Proof. exact no_send_under_unconfirmed. Qed.
 Print Assumptions C07_no_send_under_unconfirmed.
 
+(* A transport message that fails authentication (forged under ANY index -- previous, current, next,
+   retired -- or replayed) changes nothing but the clock and produces nothing. *)
+Theorem C07_unauthentic_receive_inert : forall evs sid,
+  let s := R evs in
+  step s (Forged sid) = (set_now s (now s + 1), out0) /\
+  step s (Replay sid) = (set_now s (now s + 1), out0).
+Proof. exact unauthentic_receive_inert. Qed.
+Print Assumptions C07_unauthentic_receive_inert.
+
+(* In histories that may contain forged and replayed messages (C07_no_send_under_unconfirmed already
+   quantifies over them): data under a responder-made key implies an AUTHENTIC accepted Recv under it
+   in the history; forged/replayed receives never count. *)
+Theorem C07_no_send_without_authentic_receive : forall evs e x k,
+  In x (o_sent (snd (step (R evs) e))) -> cur (fst (step (R evs) e)) = Some k -> initiator k = false ->
+  In (Recv x) (evs ++ [e]).
+Proof. exact no_send_without_authentic_receive. Qed.
+Print Assumptions C07_no_send_without_authentic_receive.
+
 (* The first message accepted under next promotes it: next -> current -> previous, old previous dropped. *)
 Theorem C07_confirmation_promotes : forall evs n,
   let s := R evs in
@@ -184,7 +202,8 @@ Print Assumptions C07_at_most_two_at_once.
 (* The executable property [holdsb] (Keypairs/Spec.v, the one evaluated on the device's observed
    traces) accepts the model's own behaviour on EVERY sequence of the property's event kinds up to
    length 5 (slot names resolved against the state; 66 430 sequences), and of the extended alphabet
-   (extra ticks, spontaneous initiation, stale response) up to length 4.  The thorough tier
+   (extra ticks, spontaneous initiation, stale response, forged message under next / current, replay)
+   up to length 4 (54 241 sequences).  The thorough tier
    evaluates length 6 / 5.  The unbounded statement is kept as a definition, not proved.  It needs
    the harness's discipline (time moves in whole seconds, fewer than 10^9 events): [holdsb] sees ages
    in whole seconds, which cannot tell 180 s - 1 ns from 179 s -- see C07_boundary_180 below. *)
@@ -207,7 +226,7 @@ Theorem C07_model_satisfies_spec_depth5 : explore alphabet7 5 init sst0 = Some 6
 Proof. vm_compute. reflexivity. Qed.
 Print Assumptions C07_model_satisfies_spec_depth5.
 
-Theorem C07_model_satisfies_spec_full_depth4 : explore alphabet_full 4 init sst0 = Some 30941.
+Theorem C07_model_satisfies_spec_full_depth4 : explore alphabet_full 4 init sst0 = Some 54241.
 Proof. vm_compute. reflexivity. Qed.
 Print Assumptions C07_model_satisfies_spec_full_depth4.
 
@@ -252,6 +271,15 @@ Proof. vm_compute. repeat split; reflexivity. Qed.
 Example C07_nonvacuous_165 :
   map o_init (outs step init (CompleteInitiator 100 ++ [Tick (164 * sec); Recv 0; Tick (2 * sec); Recv 0; Tick (6 * sec); Recv 0]))
   = [true; false; false; false; false; true; false; false].
+Proof. vm_compute. reflexivity. Qed.
+
+(* forged messages under next / current / a retired key and a replay: nothing happens; the staged
+   packet goes out only after the authentic message *)
+Example C07_nonvacuous_forged :
+  map (fun o => (o_acc o, o_sent o, o_tun o))
+      (outs step init [CompleteResponder 7; Send; Forged 0; Send; Recv 0; Replay 0; Forged 0; Send]) =
+  [(true, [], false); (false, [], false); (false, [], false); (false, [], false);
+   (true, [0; 0], true); (false, [], false); (false, [], false); (false, [0], false)].
 Proof. vm_compute. reflexivity. Qed.
 
 Example C07_nonvacuous_spec_rejects :
